@@ -36,11 +36,11 @@ Rejected(c) == [cls |-> c, minor |-> -1, given |-> EmptyFn]
 Parse(ver, s) ==
   IF s = "" \/ EndsWith(s, "/") \/ PrefixLen(ver, s) < 0 THEN Rejected("malformed")
   ELSE LET fs == Split(DropPrefix(s, PrefixLen(ver, s)), "/")
-           ps == [k \in 1..Len(fs) |-> Field(ver, fs[k])]
+           ps == TLCEval([k \in 1..Len(fs) |-> Field(ver, fs[k])])
        IN IF \E k \in 1..Len(fs) : ps[k] = <<>> THEN Rejected("malformed")
           ELSE IF \E x, y \in 1..Len(fs) : x < y /\ ps[x][1] = ps[y][1] THEN Rejected("malformed")
-          ELSE LET g == [mm \in {ps[k][1] : k \in 1..Len(fs)} |->
-                           ps[CHOOSE k \in 1..Len(fs) : ps[k][1] = mm][2]]
+          ELSE LET g == TLCEval([mm \in {ps[k][1] : k \in 1..Len(fs)} |->
+                           ps[CHOOSE k \in 1..Len(fs) : ps[k][1] = mm][2]])
                IN IF ~(MandSetOf(ver) \subseteq DOMAIN g) THEN Rejected("mandatory")
                   ELSE [cls |-> "ok", minor |-> MinorOf(ver, s), given |-> g]
 Classify(ver, s) == Parse(ver, s).cls
